@@ -192,7 +192,7 @@ func c08Session(t *rapid.T) {
 	nsteps := rapid.IntRange(2, 14).Draw(t, "steps")
 	reloaded := false
 	for i := 0; i < nsteps; i++ {
-		op := rapid.SampledFrom([]string{"put", "put", "put", "backspace", "change-query", "clear", "toggle-sort", "exclude", "change-nth", "change-nth", "nth-there-and-back", "reload", "reload", "burst-of-edits", "settle"}).Draw(t, "op")
+		op := rapid.SampledFrom([]string{"put", "put", "put", "backspace", "change-query", "clear", "toggle-sort", "exclude", "change-nth", "change-nth", "nth-there-and-back", "reload", "reload", "burst-of-edits", "settle", "blank-at-the-end", "blank-at-the-end"}).Draw(t, "op")
 		delay := time.Duration(rapid.IntRange(0, 30).Draw(t, "delayMs")) * time.Millisecond
 		body := ""
 		switch op {
@@ -304,6 +304,26 @@ func c08Session(t *rapid.T) {
 			<-feedDone
 			feedDone <- nil
 			converge("settle")
+		case "blank-at-the-end":
+			// the list is settled, then only the blanks at the end of the query change (a blank is typed
+			// before the next term, or taken back): the list is that of the new query all the same
+			<-feedDone
+			feedDone <- nil
+			converge("before the blank")
+			if strings.HasSuffix(query, " ") && rapid.Bool().Draw(t, "takeBack") {
+				query = query[:len(query)-1]
+				body = "end-of-line+backward-delete-char"
+			} else {
+				query += " "
+				body = "end-of-line+put( )"
+			}
+			if code, err := s.Post(body); err != nil || code != 200 {
+				t.Fatalf("POST %s answered %d (%v)\nhistory:\n  %s", body, code, err, strings.Join(history, "\n  "))
+			}
+			history = append(history, "POST "+body)
+			body = ""
+			labels["blank_at_the_end"] = true
+			converge("after the blank")
 		}
 		if body != "" {
 			code, err := s.Post(body)
